@@ -145,7 +145,13 @@ def classes():
                 return len(self.s) * 2 + 1
         for b in (JB(1, "b"), CB(1, "b"), TB(1, "b")):
             type(b).load(b.save())
-        _CLS.update(JS=JS, TS=TS, CP=CP)
+
+        @dataclass
+        class JF(JsonRecord):
+            x: float            # an annotation is a hint: the field may well hold a whole number (JSON has one number type)
+            y: int
+            z: Any = None
+        _CLS.update(JS=JS, TS=TS, CP=CP, JF=JF)
         _CLS.update(J1=J1, J2=J2, C1=C1, C2=C2, C3=C3, T1=T1, T2=T2, JB=JB, JX=JX, CB=CB, CX=CX, TB=TB, TX=TX)
     return _CLS
 
@@ -260,8 +266,14 @@ def gen_case(rng, tier, index):
         return {"kind": "file", "cls": "C1", "records": [["C1", [i, float(i % 97), f"r{i}" + "x" * 30]] for i in range(32000)], "ops": [],
                 "reads": rng.randrange(1 << 30), "final_nl": True, "big": True}
     if index % 2 == 0:
-        return {"kind": "roundtrip", "ops": [gen_record(rng, rng.choice(names)) for _ in range(40)],
-                "thread": index % 8 == 4}
+        ops = [gen_record(rng, rng.choice(names)) for _ in range(40)]
+        if index % 4 == 0:
+            # ints in a field annotated as float (whole numbers beyond 2**53 among them), floats in a field annotated as int
+            import random
+            r2 = random.Random(index * 7919 + 13)
+            pool = [2 ** 53 + 1, 10 ** 30 + 7, -2 ** 53 - 1, 120, 2 ** 1024 + 1, 0, 0.5, 1e300, 3]
+            ops += [["JF", [r2.choice(pool), r2.choice(pool[:6]), r2.choice([None, 2 ** 64 + 1, 1.5])]] for _ in range(6)]
+        return {"kind": "roundtrip", "ops": ops, "thread": index % 8 == 4}
     cname = names[(index // 2) % len(names)]
     recs = [gen_record(rng, cname, True) for _ in range(rng.choice([0, 1, 2, 3, 5, 8]))]
     ops = []
